@@ -98,6 +98,157 @@ def table_obligation(logic, opname, name, ctx, entry='method'):
                     decode=decode, enum_vars=xs)
     return ctx.add(ob)
 
+# ------------------------------------------------------------------ BaseModel.truth_table (the observation point of C07)
+
+from pyvc.interp import SymVal, Contract, GenList, LocalDict
+from contracts.model import ValName
+
+class _ValuesTok(SymVal):
+    "cls.values: the Mval enum of the logic, iterated in declaration order"
+    def __init__(self, names): self.names = list(names)
+    def sym_iter(self, it): return [ValName(n) for n in self.names]
+    def sym_len(self, it): return len(self.names)
+    def sym_getitem(self, it, k):
+        items = self.sym_iter(it)
+        if isinstance(k, slice): return tuple(items[k])
+        if isinstance(k, int): return items[k]
+        n = k.name if isinstance(k, ValName) else k
+        if n in self.names: return ValName(n)
+        raise PyExc(KeyError, (n,))
+    def sym_is(self, it, o): return self is o
+    def sym_truth(self, it): return True
+
+class _TFTok(SymVal):
+    "cls.truth_function under its contract: every operator method is the spec table (C07.<L>.<op>.table)"
+    def __init__(self, sem): self.sem = sem
+    def sym_getattr(self, it, name):
+        if name in S.OPERATORS:
+            def f(it, *vals):
+                if len(vals) != S.ARITY[name] or not all(isinstance(v, ValName) for v in vals): raise PyExc(TypeError, ('truth function arguments',))
+                return ValName(S.NAME[self.sem.op(name, *[S.VAL[v.name] for v in vals])])
+            return Contract(f, f'truth_function.{name}')
+        raise Outside(f'truth_function.{name}')
+    def sym_call(self, it, args, kw):
+        oper, vals = args[0], args[1:]
+        return self.sym_getattr(it, oper.name).fn(it, *vals)
+
+class _Record(SymVal):
+    def __init__(self, **kw): self.kw = kw
+    def sym_getattr(self, it, name):
+        if name in self.kw: return self.kw[name]
+        raise PyExc(AttributeError, (name,))
+
+class _ModelClsTok(SymVal):
+    """the model class as truth_table sees it: values, truth_function (under contract); anything the code stores on the
+    class persists across the calls of one history; other attributes are read from the real class and lifted"""
+    def __init__(self, logic):
+        self.logic = logic; self.sem = S.spec_of(logic.Meta.name); self.attrs = {}
+        self.vals = _ValuesTok([m.name for m in logic.Model.values])
+    def _lift(self, v, name):
+        from pytableaux.models import Mval
+        if isinstance(v, Mval): return ValName(v.name)
+        if isinstance(v, type) and issubclass(v, Mval): return self.vals
+        if isinstance(v, (tuple, list)): return type(v)(self._lift(x, name) for x in v) if isinstance(v, tuple) else [self._lift(x, name) for x in v]
+        if isinstance(v, (frozenset, set)): return frozenset(self._lift(x, name) for x in v)
+        if isinstance(v, (int, float, str, bool, type(None))): return v
+        if isinstance(v, dict): return LocalDict()  # class-level mutable state starts as at class creation; the history fills it
+        raise Outside(f'Model.{name} of type {type(v).__name__} (no contract)')
+    def sym_getattr(self, it, name):
+        if name in self.attrs: return self.attrs[name]
+        if name == 'values': return self.vals
+        if name == 'truth_function': return _TFTok(self.sem)
+        try: v = getattr(self.logic.Model, name)
+        except AttributeError as e: raise PyExc(AttributeError, e.args)
+        r = self._lift(v, name)
+        if isinstance(v, (dict, list, set)): self.attrs[name] = r
+        return r
+    def sym_setattr(self, it, name, v): self.attrs[name] = v
+    def sym_truth(self, it): return True
+
+def _tt_want(sem, names, opname, reverse):
+    vs = list(reversed(names)) if reverse else list(names)
+    inputs = list(itertools.product(vs, repeat=S.ARITY[opname]))
+    outputs = [S.NAME[sem.op(opname, *[S.VAL[n] for n in tup])] for tup in inputs]
+    return inputs, outputs
+
+HISTORIES = [(False,), (True,), (False, True), (True, False), (False, False), (True, True), (False, True, False), (True, False, True)]
+
+def truth_table_obligation(logic, opname, ctx):
+    """V: BaseModel.truth_table interpreted from source over value names, the truth function under its contract; every history of
+    calls of length <= 3 over reverse in {False, True} on one class (state the code keeps on the class persists)"""
+    from pytableaux import models as Mo
+    from pytableaux.lang import Operator
+    L = logic.Meta.name
+    sem = S.spec_of(L)
+    raw = Mo.BaseModel.__dict__['truth_table']
+    for c in logic.Model.__mro__:
+        if 'truth_table' in c.__dict__: raw, defc = c.__dict__['truth_table'], c; break
+    fn = raw.__func__ if isinstance(raw, classmethod) else raw
+    fi = source.of_function(fn)
+    where = ctx.under_contract(fi)
+    names = [m.name for m in logic.Model.values]
+    world = World()
+    world.contract(Operator, lambda it, x: Operator(x), name='Operator(x) (enum lookup, executed natively on the concrete operator)')
+    world.contract(Mo.TruthTable, lambda it, **kw: _Record(**kw), name='TruthTable (data class: fields as given)')
+    world.contract(Mo.MapProxy, lambda it, d=None: ({} if d is None else d), name='MapProxy (read-only view of the mapping)')
+    bad = None; und = None
+    for hist in HISTORIES:
+        def run(path, hist=hist):
+            it = Interp(path, world)
+            cls = _ModelClsTok(logic)
+            outs = []
+            for rev in hist:
+                outs.append(it.call_source(fi, fn, defc, [cls, Operator[opname]], dict(reverse=rev), recv=cls))
+            return outs
+        try:
+            prs = explore(run)
+        except Outside as e:
+            und = f'outside subset: {e}'; break
+        for pr in prs:
+            if pr.kind != 'return': bad = dict(history=list(hist), raises=str(pr.value)); break
+            for rev, rec in zip(hist, pr.value):
+                wi, wo = _tt_want(sem, names, opname, rev)
+                try:
+                    gi = [tuple(v.name for v in tup) for tup in rec.kw['inputs']]
+                    go = [v.name for v in rec.kw['outputs']]
+                    gm = {tuple(v.name for v in k): v_.name for k, v_ in dict(rec.kw['mapping']).items()}
+                except Exception as e:
+                    bad = dict(history=list(hist), malformed=repr(e)); break
+                if gi != wi or go != wo or gm != dict(zip(wi, wo)) or rec.kw.get('operator') is not Operator[opname]:
+                    k = next((i for i, (a, b) in enumerate(zip(go, wo)) if a != b), None)
+                    bad = dict(history=list(hist), reverse=rev, first_bad_row=(dict(args=list(wi[k]), got=go[k], want=wo[k]) if k is not None and gi == wi else dict(inputs_differ=gi != wi, mapping_differs=True)))
+                    break
+            if bad: break
+        if bad: break
+    name = f'C07.{L}.truth_table.{opname}'
+    if und: return ctx.add_result(Result(name, 'unknown', detail=und, where=where))
+    ctx.add(Obligation(name, bad is None, kind='enum', where=where,
+                       meta=dict(logic=L, operator=opname, histories=len(HISTORIES), clause='for every call history: inputs = product(values, reversed iff reverse), outputs[i] = table(inputs[i]), mapping = zip(inputs, outputs)', cex=bad)))
+
+def truth_table_real(logic, opname, ctx):
+    """F: the real classmethod on the same histories, against the real truth function applied row by row (whether that
+    function is the documented table is C07.<L>.<op>.table; a defect there is not reported a second time here)"""
+    from pytableaux.lang import Operator
+    L = logic.Meta.name
+    rt = real_table(logic, opname)
+    names = [m.name for m in logic.Model.values]
+    bad = None
+    for hist in HISTORIES:
+        for rev in hist:
+            try:
+                t = logic.Model.truth_table(Operator[opname], reverse=rev)
+                gi = [tuple(v.name for v in tup) for tup in t.inputs]; go = [v.name for v in t.outputs]
+                gm = {tuple(v.name for v in k): v_.name for k, v_ in t.mapping.items()}
+            except Exception as e:
+                bad = dict(history=list(hist), reverse=rev, raises=repr(e)); break
+            vs = list(reversed(names)) if rev else list(names)
+            wi = list(itertools.product(vs, repeat=S.ARITY[opname])); wo = [rt[tup] for tup in wi]
+            if gi != wi or go != wo or gm != dict(zip(wi, wo)):
+                k = next((i for i, (a, b) in enumerate(zip(go, wo)) if a != b), None)
+                bad = dict(history=list(hist), reverse=rev, row=(dict(args=list(wi[k]), got=go[k], want=wo[k]) if k is not None and gi == wi else None)); break
+        if bad: break
+    ctx.add(Obligation(f'C07.{L}.truth_table.{opname}.enum', bad is None, kind='enum', meta=dict(logic=L, operator=opname, cex=bad)))
+
 def real_table(logic, opname):
     tf = logic.Model.truth_function
     vals = list(logic.Model.values)
@@ -152,6 +303,9 @@ def run(ctx):
             fi = source.of_function(source.defining_class(tfcls, op.name).__dict__[op.name])
             ctx.add(Obligation(f'C07.{L}.{op.name}.table.enum', not bad, kind='enum', where=fi.where,
                                meta=dict(logic=L, operator=op.name, tuples=len(st), cex=(bad[0] if bad else None), cex_all=bad or None)))
+        for op in ops:
+            truth_table_obligation(logic, op.name, ctx)
+            truth_table_real(logic, op.name, ctx)
         # definitional identities on the real code (C07 statement), all tuples
         tf = logic.Model.truth_function
         vals = list(logic.Model.values)
@@ -192,6 +346,16 @@ def replay(payload):
     meta = payload.get('meta') or {}
     cex = payload.get('counterexample') or {}
     L, op = meta.get('logic'), meta.get('operator')
+    if L and op and isinstance(cex, dict) and 'history' in cex:
+        from pytableaux.lang import Operator
+        logic = reg(L); tf = logic.Model.truth_function
+        for rev in cex['history']:
+            t = logic.Model.truth_table(Operator[op], reverse=rev)
+            for tup, out in zip(t.inputs, t.outputs):
+                want = getattr(tf, op)(*tup)
+                if out != want or t.mapping.get(tup) != want:
+                    return dict(reproduced=True, detail=f"after the calls truth_table({op}, reverse=r) for r in {cex['history']}: the table returned for reverse={rev} maps ({', '.join(v.name for v in tup)}) to {out.name}, the truth function gives {want.name}")
+        return dict(reproduced=False, detail='the real truth_table agrees with the truth function on this history')
     if not (L and op and isinstance(cex, dict) and 'args' in cex):
         return dict(reproduced=None, detail='ground obligation; see meta')
     logic = reg(L)
